@@ -80,6 +80,9 @@ def build():
     fr = U.fragment(CS_C, 'CspSolver_solveRecursive_check', r'ConstrSet constrMask = varToConstr\[varNo\];', r'if \(allValid\) \{', within='CspSolver::solveRecursive',
                params=[('int', 'varNo', False), ('std::vector<int>', 'values', True)], ret='bool', cls='CspSolver', is_static=False, epilogue='\n    return allValid;\n')
     U.tr.classes['CspSolver'].methods.setdefault((fr.cname, len(fr.params), False), {})[''] = fr
+    # the loop of solve() that attaches every constraint to its two variables
+    U.fragment(CS_C, 'CspSolver_solve_attach', r'const int nConstr = constr\.size\(\);', r'if \(!makeArcConsistent\(\)\)', within='CspSolver::solve',
+               params=[], cls='CspSolver', is_static=False)
     # the backtracking function with exactly that region (same anchors) replaced by a call of the fragment; its recursive call is a call of itself
     P(CS_C, 'CspSolver::solveRecursive', suffix='_outer',
       rules=[(r'(?s)ConstrSet constrMask = varToConstr\[varNo\];.*?(?=if \(allValid\) \{)', 'bool allValid = CspSolver_solveRecursive_check(varNo, values);\n        ', 1)])
@@ -134,7 +137,9 @@ def _bitset_contracts(name, HAS, EMPTY, lo, hi, nwords):
     C = {}
     C[name + '_clear'] = {'requires': [S], 'assigns': ['*self'], 'ensures': ['%s(*self)' % EMPTY]}
     C[name + '_setBit'] = {'requires': [S, inr('i')], 'assigns': ['*self'],
-                           'ensures': ['%s(*self, i)' % HAS, '%s != i ==> %s(*self, %s) == %s' % (e, HAS, e, oldhas)]}
+                           'ensures': ['%s(*self, i)' % HAS, '%s != i ==> %s(*self, %s) == %s' % (e, HAS, e, oldhas),
+                                       # word level: exactly bit i is added
+                                       ' && '.join('self->data[%d] == (__CPROVER_old(self->data[%d]) | ((((i) - (%d)) >> 6) == %d ? (1ULL << (((i) - (%d)) & 63)) : 0ULL))' % (w, w, lo, w, lo) for w in range(nwords))]}
     C[name + '_clearBit'] = {'requires': [S, inr('i')], 'assigns': ['*self'],
                              'ensures': ['!%s(*self, i)' % HAS, '%s != i ==> %s(*self, %s) == %s' % (e, HAS, e, oldhas),
                                          # word level: the result is a subset of the old set
@@ -296,6 +301,17 @@ SPEC += '#define PREF_OK(self) (' + ' && '.join('(self)->prefVal.data[%d] >= 0 &
 CONTRACTS['CspSolver_solveRecursive_outer']['requires'].append('PREF_OK(self)')
 # the recursive call is a call of the function as pulled unmodified; it is replaced by the same contract (induction on the recursion depth)
 CONTRACTS['CspSolver_solveRecursive'] = {k: v for k, v in CONTRACTS['CspSolver_solveRecursive_outer'].items() if k != 'loops'}
+SPEC += '#define V2C_HAS_BOTH(self, i) (CS_HAS((self)->varToConstr.data[C_AT(self, i).v1], i) && CS_HAS((self)->varToConstr.data[C_AT(self, i).v2], i))\n'
+CONTRACTS['CspSolver_solve_attach'] = {
+    # solve() has just reset varToConstr to nVars empty sets (std::vector::assign, outside the subset: assumed)
+    'requires': _SHAPE + ['CONSTR_WF(self)', 'V2C_BELOW(self)'],
+    'assigns': ['__CPROVER_object_whole(self->varToConstr.data)'],
+    # every constraint is attached to both of its variables; no bit at or above the number of constraints is set
+    'ensures': ['C_IDX(self, ghost_e) ==> V2C_HAS_BOTH(self, ghost_e)', 'V2C_BELOW(self)'],
+    'loops': {0: {'assigns': 'ci, __CPROVER_object_whole(self->varToConstr.data)',
+                  'invariant': ['0 <= ci && ci <= nConstr', '(0 <= ghost_e && ghost_e < ci) ==> V2C_HAS_BOTH(self, ghost_e)', 'V2C_BELOW(self)']}},
+}
+HARNESS += 'void h_attach(void) { struct CspSolver* s; havoc_ghosts(); CspSolver_solve_attach(s); CANARY_POINT; }\n'
 HARNESS += 'void h_sr_outer(void) { struct CspSolver* s; struct VecInt* v; int varNo; havoc_ghosts(); ghost_w = nondet_int(); ghost_v0 = nondet_int(); CspSolver_solveRecursive_outer(s, varNo, v); CANARY_POINT; }\n'
 HARNESS += 'void h_sr_check(void) { struct CspSolver* s; struct VecInt* v; int varNo; havoc_ghosts(); ghost_w = nondet_int(); CspSolver_solveRecursive_check(s, varNo, v); CANARY_POINT; }\n'
 for _f, _sig in (('makeEven', 'int v'), ('makeOdd', 'int v'), ('addMinVal', 'int v, int a'), ('addMaxVal', 'int v, int a')):
@@ -371,6 +387,7 @@ PROPERTIES = {'C20': [g.name for g in GROUPS]}
 # (SAT reasoning about symbolic shifts of the 64-bit domain words); the group is therefore NOT part of the claim.
 GROUPS.append(Group('solveRecursive_check', 'h_sr_check', enforce='CspSolver_solveRecursive_check', replace=('ConstrSet_empty', 'ConstrSet_getMinBit', 'ConstrSet_clearBit'),
                     loop_contracts=True, min_props=10, expect_loop_props=1, timeout=1800))
+GROUPS.append(Group('solve_attach', 'h_attach', enforce='CspSolver_solve_attach', replace=('ConstrSet_setBit',), loop_contracts=True, min_props=5, expect_loop_props=1, timeout=1800))
 GROUPS.append(Group('solveRecursive', 'h_sr_outer', enforce='CspSolver_solveRecursive_outer',
                     replace=('CspSolver_solveRecursive', 'CspSolver_solveRecursive_check', 'CspSolver_getBitVal', 'Domain_empty', 'Domain_clearBit'),
                     loop_contracts=True, min_props=10, expect_loop_props=1, timeout=3000))
